@@ -1,3 +1,346 @@
-"""Thorough-tier self-test hook (filled in later)."""
+"""Thorough-tier self-test of the checkers (DESIGN.md section 7).
+
+For one property: (a) every confirmed seeded change kept under /verif/seeded for that property, and every
+pre-fix tree (reverse of a `fix:` commit) it concerns, must make the check fire (exit 1); (b) every
+behaviour-preserving refactoring kept under /verif/seeded/benign must leave it silent (exit 0; exit 2 is recorded
+as a robustness gap); (c) AST-level mutants of the property's anchored functions are generated on scratch copies
+(outside /repo and /verif, removed at once) and the check is run on each: the kill rate is evidence of reach, not a
+verdict.  A must-fire miss or a benign alarm makes the thorough run exit 2: it says the checker is weaker than
+designed, not that the code is wrong.
+"""
+from __future__ import annotations
+
+import ast
+import copy
+import json
+import os
+import random
+import shutil
+import subprocess
+import tempfile
+import time
+from concurrent.futures import ThreadPoolExecutor
+
+VERIF = os.path.dirname(os.path.dirname(os.path.abspath(__file__)))
+SEEDED = os.path.join(VERIF, "seeded")
+REPO = os.environ.get("PBVERIF_REPO", "/repo")
+
+# property -> [(relative file, qualified function)] whose body the rules of that property are anchored in
+A = {
+    "core": "pulsarbat/core.py", "tr": "pulsarbat/transforms/transforms.py", "dd": "pulsarbat/transforms/dedispersion.py",
+    "misc": "pulsarbat/contrib/misc.py", "ut": "pulsarbat/utils.py", "fft": "pulsarbat/fft.py", "rb": "pulsarbat/readers/_base.py",
+    "rbb": "pulsarbat/readers/_baseband_readers.py", "ph": "pulsarbat/pulsar/phase.py", "pr": "pulsarbat/pulsar/predictor.py",
+}
+ANCHORS = {
+    "C01": [("core", "Signal._time_slice"), ("core", "Signal.__getitem__"), ("core", "RadioSignal.__getitem__"), ("core", "Signal.stop_time"),
+            ("core", "Signal.contains"), ("core", "Signal.time_length"), ("tr", "fast_len"), ("tr", "time_shift"), ("rb", "BaseReader.contains")],
+    "C02": [("core", "RadioSignal._freq_slice"), ("core", "RadioSignal.channel_freqs"), ("core", "RadioSignal.freq_align"), ("core", "RadioSignal.bandwidth"),
+            ("core", "RadioSignal.max_freq"), ("core", "RadioSignal.min_freq"), ("core", "RadioSignal.__getitem__")],
+    "C03": [("tr", "time_shift")],
+    "C04": [("tr", "freq_shift")],
+    "C05": [("dd", "_transfer_function"), ("dd", "DispersionMeasure.chirp_function"), ("dd", "DispersionMeasure.chirp_from_signal"), ("dd", "coherent_dedispersion")],
+    "C06": [("dd", "DispersionMeasure.time_delay"), ("dd", "DispersionMeasure.sample_delay"), ("dd", "incoherent_dedispersion")],
+    "C07": [("ph", "Phase.__array_ufunc__"), ("ph", "Phase.from_angles"), ("ph", "Phase.__new__"), ("ph", "check_imaginary")],
+    "C08": [("pr", "PhasePredictor.from_polyco"), ("pr", "PhasePredictor.__call__"), ("pr", "PhasePredictor.f0"), ("pr", "PhasePredictor._get_index_and_dt"),
+            ("pr", "PhasePredictor.phasepol"), ("pr", "PhasePredictor.intervals")],
+    "C09": [("core", "Signal.compute"), ("core", "Signal.persist"), ("core", "Signal.rechunk"), ("tr", "signal_transform"), ("tr", "time_shift"),
+            ("tr", "freq_shift"), ("dd", "DispersionMeasure.chirp_function"), ("rb", "BaseReader._read_data")],
+    "C10": [("tr", "concatenate")],
+    "C11": [("rb", "BaseReader.read"), ("rb", "BaseReader.time_at"), ("rb", "BaseReader.offset_at"), ("rb", "BaseReader._read_data"),
+            ("rbb", "BasebandReader._read_baseband"), ("rbb", "BasebandReader.__init__"), ("rbb", "GUPPIRawReader._read_array"),
+            ("rbb", "DADAStokesReader._read_array"), ("rbb", "DADAStokesReader.__init__")],
+    "C12": [("tr", "snippet")],
+    "C13": [("core", "DualPolarizationSignal.to_linear"), ("core", "DualPolarizationSignal.to_circular"), ("core", "DualPolarizationSignal.to_stokes"),
+            ("core", "BasebandSignal.to_intensity"), ("core", "FullStokesSignal.__getitem__")],
+    "C14": [("misc", "stft"), ("misc", "istft"), ("tr", "time_shift"), ("tr", "freq_shift"), ("dd", "incoherent_dedispersion"), ("ut", "real_to_complex")],
+    "C15": [("ph", "Phase.__array_ufunc__"), ("ph", "Phase.argsort"), ("ph", "Phase.argmin"), ("ph", "Phase.argmax"), ("ph", "_parse_string"),
+            ("ph", "Phase.from_string"), ("ph", "Phase.to_string")],
+    "C16": [("core", "Signal.__init__"), ("core", "Signal.sample_rate"), ("core", "Signal.start_time"), ("core", "Signal.meta"), ("core", "RadioSignal.center_freq"),
+            ("core", "RadioSignal.chan_bw"), ("core", "RadioSignal.freq_align"), ("core", "DualPolarizationSignal.pol_type"), ("core", "Signal.like"),
+            ("core", "BasebandSignal.__init__")],
+    "C17": [("core", "Signal.__array_ufunc__"), ("core", "Signal.__array__"), ("core", "Signal.__len__")],
+    "C19": [("ut", "real_to_complex")],
+    "C20": [("fft", "__getattr__"), ("misc", "stft"), ("misc", "istft")],
+}
+# pre-fix trees (reverse of the fix: commits) each property's check must fire on
+PREFIX_OF = {"C03": ["prefix_01", "prefix_03"], "C04": ["prefix_02"], "C01": ["prefix_03", "prefix_04"], "C05": ["prefix_04"], "C14": ["prefix_05"],
+             "C17": ["prefix_06"], "C07": ["prefix_07", "prefix_08"], "C15": ["prefix_09", "prefix_11"], "C16": ["prefix_10"]}
+# seeded changes from other properties' sub-agents that this property's check is also expected to catch
+ALSO = {"C01": ["C03_b", "C05_a"], "C03": ["C12_b"], "C16": ["C14_a"]}
+# seeded changes known to be out of reach of the property's own check (documented in DESIGN.md): not required to fire
+OUT_OF_REACH = {"C20_a"}
+
+SWAP_CALLS = {"ceil": "floor", "floor": "ceil", "min": "max", "max": "min", "all": "any", "any": "all", "fftshift": "ifftshift",
+              "ifftshift": "fftshift", "partition": "rpartition", "real": "imag"}
+SWAP_ATTRS = {"max_freq": "min_freq", "min_freq": "max_freq", "start": "stop", "stop": "start", "real": "imag", "imag": "real",
+              "sample_rate": "chan_bw", "ceil": "floor", "floor": "ceil"}
+SWAP_STR = {"int": "frac", "frac": "int", "bottom": "top", "top": "bottom", "linear": "circular", "circular": "linear"}
+
+
+class Mutator(ast.NodeTransformer):
+    """Applies exactly the k-th applicable mutation inside the target function; counts sites when k is None."""
+    def __init__(self, target_qual, k=None):
+        self.target = target_qual
+        self.k = k
+        self.count = 0
+        self.desc = None
+        self._in = False
+        self._cls = []
+
+    def _hit(self, desc):
+        self.count += 1
+        if self.k is not None and self.count - 1 == self.k:
+            self.desc = desc
+            return True
+        return False
+
+    def visit_ClassDef(self, node):
+        self._cls.append(node.name)
+        self.generic_visit(node)
+        self._cls.pop()
+        return node
+
+    def visit_FunctionDef(self, node):
+        q = ".".join(self._cls + [node.name])
+        was = self._in
+        if q == self.target and not self._in:
+            self._in = True
+            node.body = self._stmts(node.body)
+            self.generic_visit(node)
+            self._in = was
+            return node
+        if self._in:
+            node.body = self._stmts(node.body)
+            self.generic_visit(node)
+            return node
+        self.generic_visit(node)
+        return node
+
+    def _stmts(self, body):
+        out = []
+        for i, s in enumerate(body):
+            deletable = isinstance(s, (ast.AugAssign,)) or (isinstance(s, ast.Expr) and isinstance(s.value, ast.Call)) \
+                or (isinstance(s, ast.If) and not s.orelse and all(isinstance(x, ast.Raise) for x in s.body)) \
+                or (isinstance(s, ast.Assert)) \
+                or (isinstance(s, ast.Assign) and isinstance(s.targets[0], (ast.Subscript, ast.Attribute)))
+            if deletable and self._hit(f"delete statement `{ast.unparse(s)[:70]}`"):
+                out.append(ast.Pass())
+                continue
+            for fld in ("body", "orelse", "finalbody"):
+                if hasattr(s, fld) and isinstance(getattr(s, fld), list) and getattr(s, fld) and isinstance(getattr(s, fld)[0], ast.stmt):
+                    setattr(s, fld, self._stmts(getattr(s, fld)))
+            if isinstance(s, ast.Try):
+                for h in s.handlers:
+                    h.body = self._stmts(h.body)
+            out.append(s)
+        return out
+
+    def visit_BinOp(self, node):
+        self.generic_visit(node)
+        if not self._in:
+            return node
+        swaps = {ast.Add: ast.Sub, ast.Sub: ast.Add, ast.Mult: ast.Div, ast.Div: ast.Mult, ast.FloorDiv: ast.Div}
+        t = type(node.op)
+        if t in swaps and self._hit(f"operator {t.__name__} -> {swaps[t].__name__} in `{ast.unparse(node)[:60]}`"):
+            node.op = swaps[t]()
+        return node
+
+    def visit_Compare(self, node):
+        self.generic_visit(node)
+        if not self._in or len(node.ops) != 1:
+            return node
+        swaps = {ast.Lt: ast.LtE, ast.LtE: ast.Lt, ast.Gt: ast.GtE, ast.GtE: ast.Gt, ast.Eq: ast.NotEq, ast.NotEq: ast.Eq, ast.Is: ast.IsNot,
+                 ast.IsNot: ast.Is, ast.In: ast.NotIn, ast.NotIn: ast.In}
+        t = type(node.ops[0])
+        if t in swaps and self._hit(f"comparison {t.__name__} -> {swaps[t].__name__} in `{ast.unparse(node)[:60]}`"):
+            node.ops = [swaps[t]()]
+        return node
+
+    def visit_UnaryOp(self, node):
+        self.generic_visit(node)
+        if self._in and isinstance(node.op, ast.USub) and self._hit(f"drop unary minus in `{ast.unparse(node)[:60]}`"):
+            return node.operand
+        return node
+
+    def visit_Constant(self, node):
+        if not self._in:
+            return node
+        v = node.value
+        if isinstance(v, bool) or v is None:
+            return node
+        if isinstance(v, int) and abs(v) <= 100:
+            if self._hit(f"constant {v} -> {v + 1}"):
+                return ast.copy_location(ast.Constant(value=v + 1), node)
+        elif isinstance(v, float):
+            if self._hit(f"constant {v} -> {v * 2}"):
+                return ast.copy_location(ast.Constant(value=v * 2), node)
+        elif isinstance(v, complex):
+            if self._hit(f"constant {v} -> {-v}"):
+                return ast.copy_location(ast.Constant(value=-v), node)
+        elif isinstance(v, str) and v in SWAP_STR:
+            if self._hit(f"literal '{v}' -> '{SWAP_STR[v]}'"):
+                return ast.copy_location(ast.Constant(value=SWAP_STR[v]), node)
+        return node
+
+    def visit_Attribute(self, node):
+        self.generic_visit(node)
+        if self._in and node.attr in SWAP_ATTRS and isinstance(node.ctx, ast.Load) and self._hit(f"attribute .{node.attr} -> .{SWAP_ATTRS[node.attr]}"):
+            node.attr = SWAP_ATTRS[node.attr]
+        return node
+
+    def visit_Name(self, node):
+        if self._in and isinstance(node.ctx, ast.Load) and node.id in SWAP_CALLS and self._hit(f"name {node.id} -> {SWAP_CALLS[node.id]}"):
+            node.id = SWAP_CALLS[node.id]
+        return node
+
+    def visit_Call(self, node):
+        self.generic_visit(node)
+        if not self._in:
+            return node
+        if len(node.args) == 2 and not node.keywords and not any(isinstance(a, ast.Starred) for a in node.args) \
+                and ast.unparse(node.args[0]) != ast.unparse(node.args[1]):
+            if self._hit(f"swap arguments of `{ast.unparse(node)[:60]}`"):
+                node.args = [node.args[1], node.args[0]]
+        if node.keywords and isinstance(node.func, ast.Attribute) and node.func.attr == "like":
+            if self._hit(f"drop override {node.keywords[-1].arg} in `{ast.unparse(node)[:60]}`"):
+                node.keywords = node.keywords[:-1]
+        return node
+
+
+def mutants_for(pid, seed, limit):
+    """[(relpath, new source, description)]"""
+    out = []
+    sites = []
+    srcs = {}
+    for key, qual in ANCHORS.get(pid, []):
+        rel = A[key]
+        path = os.path.join(REPO, rel)
+        if rel not in srcs:
+            try:
+                srcs[rel] = open(path, encoding="utf-8").read()
+            except OSError:
+                continue
+        tree = ast.parse(srcs[rel])
+        m = Mutator(qual)
+        m.visit(tree)
+        for k in range(m.count):
+            sites.append((rel, qual, k))
+    rng = random.Random(seed * 1000003 + sum(map(ord, pid)))
+    rng.shuffle(sites)
+    for rel, qual, k in sites[: limit * 2]:
+        tree = ast.parse(srcs[rel])
+        m = Mutator(qual, k)
+        tree = m.visit(tree)
+        ast.fix_missing_locations(tree)
+        try:
+            new = ast.unparse(tree)
+            compile(new, rel, "exec")
+        except Exception:
+            continue
+        if m.desc is None:
+            continue
+        out.append((rel, new, f"{qual}: {m.desc}"))
+        if len(out) >= limit:
+            break
+    return out
+
+
+def _scratch():
+    d = tempfile.mkdtemp(prefix="pbv-self.")
+    shutil.copytree(os.path.join(REPO, "pulsarbat"), os.path.join(d, "pulsarbat"), ignore=shutil.ignore_patterns("__pycache__"))
+    return d
+
+
+def _run_check(pid, repo_dir, budget=900):
+    env = dict(os.environ, PBVERIF_NOEVIDENCE="1", PBVERIF_BUDGET_S=str(budget), VERIF_TIER="quick")
+    env.pop("PBVERIF_REPO", None)
+    try:
+        p = subprocess.run([os.path.join(VERIF, "check"), pid, "--tier", "quick", "--repo", repo_dir], capture_output=True, text=True, env=env,
+                           timeout=budget + 60)
+        first = next((l for l in p.stdout.splitlines() if l.startswith("  ") and ": rule " in l), "")
+        return p.returncode, first.strip()[:200]
+    except subprocess.TimeoutExpired:
+        return 2, "timeout"
+
+
+def _with_patch(pid, patch_path):
+    d = _scratch()
+    try:
+        r = subprocess.run(["patch", "-s", "-p1", "-i", patch_path], cwd=d, capture_output=True, text=True)
+        if r.returncode != 0:
+            return None, "patch does not apply"
+        return _run_check(pid, d)
+    finally:
+        shutil.rmtree(d, ignore_errors=True)
+
+
+def _with_source(pid, rel, src):
+    d = _scratch()
+    try:
+        with open(os.path.join(d, rel), "w", encoding="utf-8") as fh:
+            fh.write(src)
+        return _run_check(pid, d)
+    finally:
+        shutil.rmtree(d, ignore_errors=True)
+
+
 def run_for(run, pid):
+    t0 = time.time()
+    jobs = int(os.environ.get("PBVERIF_JOBS", "14"))
+    must_fire, must_silent = [], []
+    if os.path.isdir(SEEDED):
+        for d in sorted(os.listdir(SEEDED)):
+            p = os.path.join(SEEDED, d, "patch.diff")
+            if not os.path.exists(p):
+                continue
+            if d.startswith(pid + "_") and d not in OUT_OF_REACH:
+                must_fire.append((d, p))
+            elif d in PREFIX_OF.get(pid, []) or d in ALSO.get(pid, []):
+                must_fire.append((d, p))
+            elif d.startswith("benign_"):
+                must_silent.append((d, p))
+    n_mut = int(os.environ.get("PBVERIF_MUTANTS", "48"))
+    muts = mutants_for(pid, run.seed, n_mut)
+    res = {"must_fire": {}, "must_stay_silent": {}, "mutants": {"generated": len(muts), "killed": 0, "inconclusive": 0, "survived": 0, "survivors": [], "killed_samples": []}}
+    with ThreadPoolExecutor(max_workers=jobs) as ex:
+        f1 = {ex.submit(_with_patch, pid, p): d for d, p in must_fire}
+        f2 = {ex.submit(_with_patch, pid, p): d for d, p in must_silent}
+        f3 = {ex.submit(_with_source, pid, rel, src): desc for rel, src, desc in muts}
+        for f, d in f1.items():
+            res["must_fire"][d] = f.result()[0]
+        for f, d in f2.items():
+            res["must_stay_silent"][d] = f.result()[0]
+        for f, desc in f3.items():
+            rc, first = f.result()
+            if rc == 1:
+                res["mutants"]["killed"] += 1
+                if len(res["mutants"]["killed_samples"]) < 6:
+                    res["mutants"]["killed_samples"].append({"mutant": desc, "reported": first})
+            elif rc == 2:
+                res["mutants"]["inconclusive"] += 1
+            else:
+                res["mutants"]["survived"] += 1
+                if len(res["mutants"]["survivors"]) < 12:
+                    res["mutants"]["survivors"].append(desc)
+    missed = sorted(d for d, rc in res["must_fire"].items() if rc != 1)
+    alarms = sorted(d for d, rc in res["must_stay_silent"].items() if rc == 1)
+    gaps = sorted(d for d, rc in res["must_stay_silent"].items() if rc not in (0, 1))
+    res["missed_must_fire"] = missed
+    res["false_alarms_on_benign"] = alarms
+    res["inconclusive_on_benign"] = gaps
+    res["wall_s"] = round(time.time() - t0, 1)
+    res["note"] = ("mutants are generated blindly by AST operators on the anchored functions; survivors include equivalent mutants "
+                   "(e.g. changes behind a guard the rule decides, constants in messages) and changes outside the decided clauses")
+    run.selftest = res
+    # rewrite the evidence file with the self-test summary included
+    if not os.environ.get("PBVERIF_NOEVIDENCE"):
+        nviol = 0
+        run.write_evidence(nviol, 0, 0)
+    print(f"{pid} self-test: must-fire {len(res['must_fire']) - len(missed)}/{len(res['must_fire'])}, benign silent "
+          f"{len(res['must_stay_silent']) - len(alarms) - len(gaps)}/{len(res['must_stay_silent'])} (alarms {len(alarms)}, inconclusive {len(gaps)}), "
+          f"mutants killed {res['mutants']['killed']}/{len(muts)} (inconclusive {res['mutants']['inconclusive']}, survived {res['mutants']['survived']}) "
+          f"in {res['wall_s']}s")
+    if missed or alarms:
+        print(f"SELFTEST-FAILED property={pid} missed={missed} false_alarms={alarms}")
+        return 2
     return 0
